@@ -326,7 +326,8 @@ package client
 //@ func (c *Client) checkAndRenewCertificate(ctx context.Context)
 //@   safety off
 //@   opt frame=off
-//@   requires c != nil && c.Configuration != nil
+//@   requires c != nil
+//@   requires env-a-client-is-always-built-around-a-configuration: c.Configuration != nil
 //@   ghost wlocked bool = false
 //@   ghost wheld bool = false
 //@   ghost rpcs int = 0
